@@ -201,7 +201,7 @@ structure World where
   execSpawn : List ExecTask := []  -- QueuingExecutor.spawn_queue
   coreEffects : List Eff := []  -- Core.requests channel
   coreEvents : List Ev := []    -- Core.capability_events channel
-  aborts : List (Nat × Nat) := []  -- abort-handle name ↦ flag (meta index), kept by the harness
+  aborts : List (Nat × Nat) := []  -- abort-handle name ↦ command id, kept by the harness
   anomalies : List String := []
 deriving Inhabited
 
@@ -643,7 +643,7 @@ def instantiate (env : Env) : Cmd → World → Nat × World
   | .task is, w => newCmd env is w
   | .abortable name c, w =>
     let (cc, w) := instantiate env c w
-    (cc, { w with aborts := w.aborts ++ [(name, (w.cmd cc).abortFlag)] })
+    (cc, { w with aborts := w.aborts ++ [(name, cc)] })
 def instantiateAll (env : Env) : List Cmd → World → List Nat × World
   | [], w => ([], w)
   | c :: cs, w =>
@@ -651,6 +651,15 @@ def instantiateAll (env : Env) : List Cmd → World → List Nat × World
     let (rest, w) := instantiateAll env cs w
     (ci :: rest, w)
 end
+
+/-- `AbortHandle::abort` (executor.rs:86-101): set the command's aborted flag, then take and wake the
+    AtomicWaker its host registered (no-op when the command is not hosted) -/
+def World.abortCmd (w : World) (cid : Nat) : World :=
+  let c := w.cmd cid
+  let w := w.modMeta c.abortFlag fun m => { m with aborted := true }
+  match c.waker with
+  | none => w
+  | some wk => (w.modCmd cid fun c => { c with waker := none }).wake wk
 
 /-! ## The shell side: resolving and dropping requests (core/resolve.rs, context.rs:57-91) -/
 
